@@ -3,7 +3,12 @@ strategies.py, tasks.py, data.py, series_as_features/model_selection/_split.py).
 
 case (kind "hist") = {
   "kind": "hist", "store": "hdd"|"ram", "learner": ["cls", ncls] | ["reg"], "labels": "int"|"str"|"numstr",
-  "datasets": [{"name", "tpos", "feats": null|[col positions], "rows": [[cells]], "labels": null|"RRE.."}],
+  "datasets": [{"name", "tpos", "feats": null|[col positions], "rows": [[cells]], "labels": null|"RRE..",
+                "rowidx": optional row labels of the DataFrame (permuted / offset / gapped / duplicated ints, or strings);
+                          absent = RangeIndex}],
+  "Instance index" of a record = the POSITIONS (iloc) the cv splitter yielded, which is what the code stores as
+  `index`; row labels of the frame play no role (the model does not even receive them), and the oracle recomputes
+  every record by position.
   "strategies": [{"name", "p"}],
   "cv": {"kind": "kfold", "k", "shuffle", "rs"} | {"kind": "single", "t", "shuffle", "rs"} | {"kind": "presplit", "k": null|int},
   "runs": [{"owP", "owF", "saveF", "pot", "fail": null|k, "fresh": bool, "ns": optional number of strategies (a prefix) used by this run}]}
@@ -177,6 +182,8 @@ def _frame(c, d):
     df = pd.DataFrame(cols, columns=names)
     if d.get("labels"):
         df.index = ["train" if ch == "R" else "test" for ch in d["labels"]]
+    elif d.get("rowidx") is not None:
+        df.index = pd.Index(d["rowidx"])
     feats = None if d["feats"] is None else [names[i] for i in d["feats"]]
     return df, feats
 
@@ -746,7 +753,14 @@ def features(c, out):
     if c["kind"] == "init":
         return ["init=" + out]
     d = _parse(out)
-    f = ["store=" + c["store"], "cv=" + c["cv"]["kind"] + ("-shuffle" if c["cv"].get("shuffle") else ""),
+    _rowidx_feats = []
+    for dd in c["datasets"]:
+        ri = dd.get("rowidx")
+        f_ri = "range" if ri is None and not dd.get("labels") else ("train/test" if ri is None else
+               ("str" if isinstance(ri[0], str) else ("dup-int" if len(set(ri)) < len(ri) else
+               ("perm-int" if sorted(ri) == list(range(len(ri))) else "other-int"))))
+        _rowidx_feats.append("rowidx=" + f_ri)
+    f = _rowidx_feats + ["store=" + c["store"], "cv=" + c["cv"]["kind"] + ("-shuffle" if c["cv"].get("shuffle") else ""),
          "learner=" + c["learner"][0], "labels=" + c["labels"],
          "nstrat=%d" % len(c["strategies"]), "ndata=%d" % len(c["datasets"]), "nruns=%d" % len(c["runs"])]
     for i, r in enumerate(c["runs"]):
@@ -769,7 +783,30 @@ def _mk_rows(rng, n, ncols, tpos, ncls):
     return rows
 
 
-def _dataset(rng, name, n, ncols, ncls, presplit=False, explicit=None):
+def _rowidx(rng, n, kind=None):
+    """row labels that differ from positions: label-based access with cv positions would hit other rows"""
+    kind = kind or rng.choice(["perm", "perm", "offset", "gaps", "desc", "str", "dup", "permoff"])
+    if kind == "perm":
+        l = list(range(n)); rng.shuffle(l)
+        if l == list(range(n)):
+            l = l[1:] + l[:1]
+        return l
+    if kind == "offset":
+        return list(range(1, n + 1))
+    if kind == "gaps":
+        return [2 * i + 3 for i in range(n)]
+    if kind == "desc":
+        return list(range(n - 1, -1, -1))
+    if kind == "str":
+        l = ["r%d" % i for i in range(n)]; rng.shuffle(l)
+        return l
+    if kind == "dup":
+        return [i // 2 for i in range(n)]
+    l = list(range(-2, n - 2)); rng.shuffle(l)
+    return l
+
+
+def _dataset(rng, name, n, ncols, ncls, presplit=False, explicit=None, rowidx=None):
     tpos = rng.randrange(ncols)
     feats = None
     others = [i for i in range(ncols) if i != tpos]
@@ -781,7 +818,10 @@ def _dataset(rng, name, n, ncols, ncls, presplit=False, explicit=None):
         labs = ["R"] * ntr + ["E"] * (n - ntr)
         rng.shuffle(labs)
         labels = "".join(labs)
-    return {"name": name, "tpos": tpos, "feats": feats, "rows": _mk_rows(rng, n, ncols, tpos, ncls), "labels": labels}
+    d = {"name": name, "tpos": tpos, "feats": feats, "rows": _mk_rows(rng, n, ncols, tpos, ncls), "labels": labels}
+    if not presplit and rowidx is not False and (rowidx is not None or rng.random() < 0.55):
+        d["rowidx"] = _rowidx(rng, n, rowidx)
+    return d
 
 
 def _opts(owP=False, owF=False, saveF=True, pot=False, fail=None, fresh=True, ns=None):
@@ -803,12 +843,13 @@ def _small_configs(rng, tier):
     cfgs = []
     # A: 2 strategies x 1 dataset x 2-fold
     cfgs.append({"store": "hdd", "learner": ["cls", 3], "labels": "int",
-                 "datasets": [_dataset(rng, "d0", 4, 3, 3, explicit=False)],
+                 "datasets": [_dataset(rng, "d0", 4, 3, 3, explicit=False, rowidx="perm")],
                  "strategies": [{"name": "s0", "p": 1}, {"name": "s1", "p": 2}],
                  "cv": {"kind": "kfold", "k": 2}})
     # B: 1 strategy x 2 datasets x single split (regression)
     cfgs.append({"store": "hdd", "learner": ["reg"], "labels": "int",
-                 "datasets": [_dataset(rng, "da", 5, 2, 0, explicit=False), _dataset(rng, "db", 4, 3, 0, explicit=True)],
+                 "datasets": [_dataset(rng, "da", 5, 2, 0, explicit=False, rowidx="gaps"),
+                              _dataset(rng, "db", 4, 3, 0, explicit=True, rowidx="str")],
                  "strategies": [{"name": "only", "p": -2}],
                  "cv": {"kind": "single", "t": 2}})
     # C: 2 strategies x 1 dataset, pre-split files + inner 2-fold
@@ -819,7 +860,7 @@ def _small_configs(rng, tier):
     if tier == "thorough":
         # D: 2 strategies x 2 datasets x 3-fold
         cfgs.append({"store": "hdd", "learner": ["reg"], "labels": "int",
-                     "datasets": [_dataset(rng, "d0", 6, 3, 0), _dataset(rng, "d1", 7, 2, 0)],
+                     "datasets": [_dataset(rng, "d0", 6, 3, 0, rowidx=False), _dataset(rng, "d1", 7, 2, 0, rowidx="permoff")],
                      "strategies": [{"name": "s0", "p": 1}, {"name": "s1", "p": 5}],
                      "cv": {"kind": "kfold", "k": 3}})
     return cfgs
